@@ -566,7 +566,13 @@ namespace occa {
                                      operatorType::comma      |
                                      operatorType::semicolon);
       if (pos == 1) {
-        tokenContext[1]->printError("Expected an expression");
+        // The [:] can be the last token
+        token_t *nextToken = tokenContext[1];
+        if (nextToken) {
+          nextToken->printError("Expected an expression");
+        } else {
+          tokenContext.printErrorAtEnd("Expected an expression");
+        }
         success = false;
       }
       if (!success) {
@@ -590,7 +596,13 @@ namespace occa {
       int pos = declarationNextCheck(operatorType::comma |
                                      operatorType::semicolon);
       if (pos == 1) {
-        tokenContext[1]->printError("Expected an expression");
+        // The [=] can be the last token
+        token_t *nextToken = tokenContext[1];
+        if (nextToken) {
+          nextToken->printError("Expected an expression");
+        } else {
+          tokenContext.printErrorAtEnd("Expected an expression");
+        }
         success = false;
       }
       if (!success) {
